@@ -149,6 +149,9 @@ func (l *InterceptingListener) getTlsConfigForClient(clientInfo *ClientInfo) fun
 				if err := proto.Unmarshal(reqBytes, serverCertsReq); err != nil {
 					return nil, fmt.Errorf("(%s) error unmarshaling common name value: %w", op, err)
 				}
+				// This value came from the remote peer; only the fetch path above
+				// may skip verification of the request
+				serverCertsReq.SkipVerification = false
 				protoToReturn = p
 
 			default:
